@@ -473,6 +473,13 @@ pub fn f2() -> OptionParser<(bool, Input)> {
     construct!(v, cat).to_options()
 }
 
+/// non-ASCII long name and command name (typo suggestions compare against them)
+pub fn un() -> OptionParser<(bool, Option<Cmd1>)> {
+    let g = long("gr\u{f6}\u{df}e").switch();
+    let cmd = c1_add().command("s\u{fc}d").optional();
+    construct!(g, cmd).to_options()
+}
+
 /// switch declared before a repeated argument (the switch's consumption precedes the loop)
 pub fn g4() -> OptionParser<(bool, Vec<u32>, u32)> {
     let a = short('a').long("alpha").switch();
